@@ -315,7 +315,7 @@ def suites(tier: str, seed: int) -> List[Suite]:
         sk += G.random_skeletons(rng, 1600, big=6)
     else:
         sk = list(G.exhaustive_skeletons(5, double_wrap_upto=3, refs_upto=3))
-        sk += G.random_skeletons(rng, 25000, big=100)
+        sk += G.random_skeletons(rng, 15000, big=60)
     for s in sk:
         if s in seen:
             continue
